@@ -24,3 +24,4 @@ def check(ctx):
     adapter.traj_reps(ctx)
     adapter.grid(ctx)
     ctx.floor("TRAJ", 4)
+    adapter.noise_source(ctx)
